@@ -14,6 +14,7 @@ from typing import Any, Iterator
 
 from .. import core, entries, ipsref, progen
 from ..runner import Stats, Violation
+from ..runner import should_stop as runner_should_stop
 from .c14 import twin_of
 
 PROP = "C13"
@@ -96,6 +97,18 @@ def gen_records(rng: random.Random, delta: int) -> list[tuple[int, str, Any, int
             off = rng.randrange(FREE_LO, FREE_HI) - delta
             if not 0 <= off < (1 << 24) or off == ipsref.EOF_OFFSET:
                 continue
+        if rng.random() < 0.08:
+            # marker bytes straddling record fields: offset ..45 4F + size 46 xx, or RLE fields 45 4F 46
+            if rng.random() < 0.5:
+                boff = (rng.randrange(0x10, 0x2F) << 16) | 0x454F
+                if 0 <= boff < (1 << 24) and FREE_LO <= boff + delta < FREE_HI:
+                    recs.append((boff, "plain", 0x4600 + rng.randrange(0, 0x20), rng.getrandbits(32)))
+                    cursor = boff + delta + 0x4620
+                    continue
+            else:
+                recs.append((off, "rle", (0x454F, 0x46), 0))
+                cursor = off + delta + 0x454F
+                continue
         if is_rle:
             run = rng.choice([1, 2, 3, 255, 256, 4096, 65535, rng.randrange(1, 300)])
             recs.append((off, "rle", (run, rng.randrange(256)), 0))
@@ -107,12 +120,18 @@ def gen_records(rng: random.Random, delta: int) -> list[tuple[int, str, Any, int
 
 
 def materialise(recs: list[Any]) -> list[ipsref.Record]:
+    """fill seeds with the low two bits == 3 plant the bytes 'EOF' inside the payload (start, middle or
+    end): the end-of-patch marker is only a marker at a record boundary."""
     out: list[ipsref.Record] = []
     for off, kind, payload, fill in recs:
         if kind == "rle":
             out.append((off, "rle", (payload[0], payload[1])))
         else:
-            out.append((off, "plain", random.Random(fill).randbytes(payload)))
+            data = bytearray(random.Random(fill).randbytes(payload))
+            if fill & 3 == 3 and payload >= 3:
+                pos = [0, (payload - 3) // 2, payload - 3][(fill >> 2) % 3]
+                data[pos : pos + 3] = b"EOF"
+            out.append((off, "plain", bytes(data)))
     return out
 
 
@@ -134,7 +153,7 @@ def gen_case(cseed: int, tier: str) -> dict[str, Any]:
     recs = gen_records(w, delta)
     slots = [s for s in progen.iter_slots(prog) if s["assembled"] and not (s["file"] == "main.s" and not s["path"] and s["pos"] == 0)]
     slot = w.choice(slots)
-    dform = w.choice(["lit", "lit", "const"])
+    dform = w.choice(["lit", "lit", "const", "const_reassigned"])
     return {
         "type": "base",
         "seed": cseed,
@@ -145,7 +164,7 @@ def gen_case(cseed: int, tier: str) -> dict[str, Any]:
         "slot": slot,
         "via_writer": w.random() < 0.15 and all(r[1] == "plain" for r in recs),
         "second_delta": (delta + 0x400000) if w.random() < 0.3 else None,
-        "patch_path": w.choice(["p.ips", "p.ips", "sub/p.ips", "a b/p-1.ips"]),
+        "patch_path": w.choice(["p.ips", "p.ips", "sub/p.ips", "a b/p-1.ips", "$ROOT$/p.ips", "$ROOT$/sub/p.ips"]),
     }
 
 
@@ -160,7 +179,7 @@ def host_with_directive(case: dict[str, Any]) -> progen.Prog:
     prog = progen.Prog.from_record(case["prog"])
     delta = case["delta"]
     nodes: list[progen.Node] = []
-    if case.get("delta_form") == "const":
+    if case.get("delta_form") in ("const", "const_reassigned"):
         text = f"DELTA_zq := {abs(delta):#x}"
         expr = "DELTA_zq" if delta >= 0 else "0 - DELTA_zq"
         prog = progen.insert_at(prog, {"file": "main.s", "path": [], "pos": 0}, {"k": "stmt", "t": text})
@@ -175,6 +194,9 @@ def host_with_directive(case: dict[str, Any]) -> progen.Prog:
         slot = case["slot"]
     path = case.get("patch_path") or "p.ips"
     prog = progen.insert_at(prog, slot, {"k": "include_ips", "t": f".include_ips '{path}', {expr}"})
+    if case.get("delta_form") == "const_reassigned":
+        # the assembly-time variable gets another value later: the directive must use the value it had
+        prog.root.append({"k": "stmt", "t": "DELTA_zq := 0x777"})
     if case.get("second_delta") is not None:
         # the same stored patch included a second time with another delta (targets 4 MiB further up)
         prog.root.append({"k": "include_ips", "t": f".include_ips '{path}', {case['second_delta']:#x}"})
@@ -247,7 +269,7 @@ def run_single(case: dict[str, Any], stats: Stats) -> list[Violation]:
     stored = apply_damage(good, dmg)
     files = prog.all_files()
     roles = prog.all_roles()
-    ppath = case.get("patch_path") or "p.ips"
+    ppath = (case.get("patch_path") or "p.ips").replace("$ROOT$/", "")
     roles[ppath] = "ips_in"
     faults = case.get("faults") or []
     if not case.get("missing"):
@@ -401,9 +423,9 @@ def sub_cases(case: dict[str, Any]) -> Iterator[dict[str, Any]]:
     kn = {"bufsize": rng.choice([16, 32, 64, 4096])}
     prog = host_with_directive(case)
     files = prog.all_files()
-    files[case.get("patch_path") or "p.ips"] = good
+    files[(case.get("patch_path") or "p.ips").replace("$ROOT$/", "")] = good
     roles = prog.all_roles()
-    roles[case.get("patch_path") or "p.ips"] = "ips_in"
+    roles[(case.get("patch_path") or "p.ips").replace("$ROOT$/", "")] = "ips_in"
     o = entries.execute_one(files, roles, {"entry": "string", "src": "main.s", "rom": prog.mapping}, kn, [])
     reads = [p for p in o["points"] if p[0] == "ips_in" and p[1] == "read"]
     if len(reads) > 24:
@@ -419,6 +441,8 @@ def run_case(case: dict[str, Any], stats: Stats) -> list[Violation]:
     found: list[Violation] = []
     seen: set[str] = set()
     for sub in sub_cases(case):
+        if runner_should_stop():
+            break
         for v in run_single(sub, stats):
             key = v.klass + "|" + v.sig
             if key not in seen:
@@ -483,7 +507,7 @@ def shrink_candidates(case: dict[str, Any]) -> Iterator[dict[str, Any]]:
     if case["slot"]["ctx"] == "top" and case["slot"]["file"] == "main.s":
         # statement removal keeps top-level slot positions valid only when removing after the slot
         for p in progen.iter_removals(host):
-            if len(p.root) < len(host.root) and case["slot"]["pos"] <= len(p.root) and case.get("delta_form") != "const":
+            if len(p.root) < len(host.root) and case["slot"]["pos"] <= len(p.root) and case.get("delta_form") not in ("const", "const_reassigned"):
                 c = dict(case)
                 c["prog"] = p.to_record()
                 c["slot"] = dict(case["slot"], pos=min(case["slot"]["pos"], len(p.root)))
